@@ -69,6 +69,7 @@ def pytask_collect(session: Session) -> bool:
     _collect_from_paths(session)
     _collect_from_tasks(session)
     _collect_not_collected_tasks(session)
+    _fail_tasks_with_duplicated_signatures(session)
 
     session.tasks.extend(
         i.node
@@ -178,6 +179,40 @@ def _collect_not_collected_tasks(session: Session) -> None:
                 ),
             )
             session.collection_reports.append(report)
+
+
+_DUPLICATED_TASK = """\
+The task '{name}' is collected more than once. This happens when a function with the \
+prefix 'task_' and a function wrapped with '@task' share the same name in one module. \
+Rename one of them.
+"""
+
+
+def _fail_tasks_with_duplicated_signatures(session: Session) -> None:
+    """Turn tasks which share their signature with an earlier task into failed reports.
+
+    Tasks are identified by their signature. If two tasks had the same signature, only
+    one of them would become a node in the DAG and the other would be silently dropped.
+
+    """
+    seen: set[str] = set()
+    for i, report in enumerate(session.collection_reports):
+        if report.outcome != CollectionOutcome.SUCCESS or not isinstance(
+            report.node, PTask
+        ):
+            continue
+        signature = report.node.signature
+        if signature in seen:
+            session.collection_reports[i] = CollectionReport(
+                outcome=CollectionOutcome.FAIL,
+                node=report.node,
+                exc_info=(
+                    CollectionError,
+                    CollectionError(_DUPLICATED_TASK.format(name=report.node.name)),
+                    None,
+                ),
+            )
+        seen.add(signature)
 
 
 @hookimpl
